@@ -38,7 +38,7 @@ def combos(ctx, use_gp):
     if not use_gp:
         so = [x for x in so if x[0] != "gp"]
     if not ctx.quick:
-        return so * 3 + mo * 6
+        return so * 8 + mo * 16
     rng = ctx.rng
     gp = [x for x in so if x[0] == "gp"]
     rest = [x for x in so if x[0] != "gp"]
